@@ -176,9 +176,130 @@ def run_probes(desc):
         c07.run_wrapped_pair(rng, counters, violations, sigs, two_machines=True)
     for v in violations:
         v["rule"] = "C16.binding-of-other-machine"
+    v2 = []
+    for _ in range(120):
+        run_shared_objects(rng, counters, v2, sigs)
+    violations += v2
     return {"evaluations": counters["partial_pair_checked"] + counters.get("wrapped_pair_checked", 0), "signatures": sorted(sigs), "samples": [],
             "counters": {"two_machine_partial_probes": counters["partial_pair_checked"],
-                         "two_machine_wrapped_probes": counters.get("wrapped_pair_checked", 0)}, "violations": violations[:2]}
+                         "two_machine_wrapped_probes": counters.get("wrapped_pair_checked", 0),
+                         "shared_list_sends": counters.get("shared_list_sends", 0),
+                         "same_enum_two_classes": counters.get("same_enum_two_classes", 0)},
+            "violations": violations[:2] + v2[:2]}
+
+
+SHARED_SRC = '''
+import enum
+
+class E(enum.Enum):
+    a = 1
+    b = 2
+    c = 3
+
+class L:
+    def __init__(self, tag):
+        self.tag = tag
+    def on_go(self):
+        LOG.append(self.tag)
+
+class M(StateMachine):
+    a = State(initial=True)
+    b = State()
+    go = a.to(b) | b.to(a)
+
+class EA(StateMachine):
+    _S = States.from_enum(E, initial=E.a, final=E.c)
+    go = _S.a.to(_S.b) | _S.b.to(_S.c)
+'''
+ENUM_B_SRC = '''
+class EB(StateMachine):
+    _S = States.from_enum(E, initial=E.a, final=E.c)
+    jump = _S.a.to(_S.c)
+    hop = _S.a.to(_S.b) | _S.b.to(_S.c)
+'''
+
+
+def run_shared_objects(rng, counters, violations, sigs):
+    """Objects handed to several machines / classes by the caller stay the caller's: (1) one list object
+    used as `listeners=` for several machines, with private listeners added to some of them;
+    (2) one Enum used by two unrelated classes through States.from_enum."""
+    import warnings
+
+    from statemachine import State, StateMachine
+    from statemachine.exceptions import TransitionNotAllowed
+    from statemachine.states import States
+
+    log = []
+    ns = {"State": State, "StateMachine": StateMachine, "States": States, "LOG": log, "__name__": "vmon_c16s"}
+    with warnings.catch_warnings():
+        warnings.simplefilter("ignore")
+        exec(compile(SHARED_SRC, "<c16-shared>", "exec"), ns)
+        # (1)
+        container = rng.choice(["list", "list", "tuple"])
+        defaults = [ns["L"](f"d{i}") for i in range(rng.randint(0, 2))]
+        given = defaults if container == "list" else tuple(defaults)
+        n_before = len(given)
+        machines, private, ops = [], {}, []
+        for _ in range(rng.randint(4, 9)):
+            r = rng.random()
+            if r < 0.4 or not machines:
+                machines.append(ns["M"](listeners=given))
+                private[len(machines) - 1] = []
+                ops.append(("new", len(machines) - 1))
+            elif r < 0.7:
+                i = rng.randrange(len(machines))
+                obj = ns["L"](f"p{i}.{len(private[i])}")
+                if rng.random() < 0.3 and any(private.values()):
+                    obj = rng.choice([o for v in private.values() for o in v])     # the same private object on a sibling
+                if all(o is not obj for o in private[i]):
+                    machines[i].add_listener(obj)
+                    private[i].append(obj)
+                ops.append(("add", i, obj.tag))
+            else:
+                i = rng.randrange(len(machines))
+                del log[:]
+                machines[i].go()
+                want = sorted(o.tag for o in defaults + private[i])
+                counters["shared_list_sends"] = counters.get("shared_list_sends", 0) + 1
+                ops.append(("go", i))
+                if sorted(log) != want:
+                    violations.append({"mechanism": "listener-list-shared-between-machines", "rule": "C16.callers-objects-stay-callers",
+                                       "detail": f"machine {i} notified {sorted(log)}, expected {want} (its own defaults + private listeners); ops={ops}",
+                                       "witness": {"source": SHARED_SRC, "ops": ops, "container": container}})
+                    return
+        if len(given) != n_before:
+            violations.append({"mechanism": "listener-list-shared-between-machines", "rule": "C16.callers-objects-stay-callers",
+                               "detail": f"the caller's listeners list grew from {n_before} to {len(given)} entries; ops={ops}",
+                               "witness": {"source": SHARED_SRC, "ops": ops, "container": container}})
+            return
+        sigs.add(F.h(("shared-list", container, tuple(o[0] for o in ops))))
+        # (2)
+        ea_old = ns["EA"]()
+        before = (sorted(str(e) for e in ea_old.allowed_events), [str(e) for e in ns["EA"].events])
+        exec(compile(ENUM_B_SRC, "<c16-enumb>", "exec"), ns)
+        eb = ns["EB"]()
+        if rng.random() < 0.5:
+            eb.jump()
+        problems = []
+        for label, m in (("existing instance", ea_old), ("new instance", ns["EA"]())):
+            try:
+                now = (sorted(str(e) for e in m.allowed_events), [str(e) for e in type(m).events])
+            except Exception as err:  # noqa: BLE001
+                now = f"{type(err).__name__}: {err}"[:120]
+            if now != before:
+                problems.append(f"{label}: (allowed, events) {now} != {before}")
+            for ev in ("jump", "hop"):
+                try:
+                    m.send(ev)
+                    problems.append(f"{label}: event {ev} of the other class was accepted")
+                except TransitionNotAllowed:
+                    pass
+                except Exception as err:  # noqa: BLE001
+                    problems.append(f"{label}: send({ev}) raised {type(err).__name__}")
+        counters["same_enum_two_classes"] = counters.get("same_enum_two_classes", 0) + 1
+        if problems:
+            violations.append({"mechanism": "enum-states-shared-between-classes", "rule": "C16.callers-objects-stay-callers",
+                               "detail": "; ".join(problems)[:600], "witness": {"source": SHARED_SRC + ENUM_B_SRC}})
 
 
 def run_shard(desc):
